@@ -935,6 +935,20 @@ def rule_esc(ctx, F):
     bad2 = sorted(o for o in raw if o in special)
     ctx.ob(R, w, "label separators and the escape character are escaped", not bad2,
            "Label's Display prints %s raw: the name would read back with different labels" % [chr(o) for o in bad2])
+    # characters that make the reader take a whole entry for something else when they open it (`$` directive)
+    se = F.one_body(r"^zonefile::inplace::EntryScanner::<'a>::_scan_entry$")
+    if ctx.anchor(R, "EntryScanner::_scan_entry", se):
+        openers = set()
+        for bi in se.reachable_blocks():
+            for st in se.blocks[bi]["s"]:
+                if st[0] == "=" and st[2][0] == "agg" and st[2][1][0] == "adt" and str(st[2][1][1]).endswith("scan::Symbol") \
+                        and st[2][1][2] == "Char" and st[2][2] and st[2][2][0][0] == "k" and isinstance(st[2][2][0][2], int):
+                    openers.add(st[2][2][0][2])
+        bad3 = sorted(o for o in openers if o in raw)
+        ctx.ob(R, w, "characters that open a directive are escaped", bool(openers) and not bad3,
+               "Label's Display prints %s raw; at the start of an entry the reader takes a token beginning with it for a control "
+               "directive, so a record whose owner name starts with it does not read back" % [chr(o) for o in bad3],
+               detail="entry openers recognised by the reader: %s" % [chr(o) for o in sorted(openers)])
     ctx.ob(R, r, "reader accepts exactly printable ASCII unescaped", acc == set(range(0x20, 0x7F)),
            "Symbol::into_octet accepts %d plain characters (expected the 95 printable ASCII characters)" % len(acc),
            nontrivial=True)
